@@ -31,6 +31,7 @@ RULE = (
     "unused_ignore iff nothing was suppressed and bare_ignore iff bare (both codes enabled). Non-trivial = comment "
     "placement adjacent to a diagnostic, on line 1 / last line, or naming a non-matching code; subsets that remove "
     "some but not all codes of a line (distinct by program+variant)."
+    ' A further mechanism checks three copies of a program in ONE command-line run with a per-module override for exactly one of them.'
 )
 ASSUMPTIONS = [
     "diagnostics are compared as sorted multisets of (code, line, col, message) with module names normalised",
